@@ -160,7 +160,8 @@ pub(super) mod udp {
         type Error = anyhow::Error;
 
         fn encode(&mut self, (content, addr): DatagramPacket, dst: &mut BytesMut) -> anyhow::Result<()> {
-            self.session.increase_packet_id();
+            // a packet id is never reused: the session ends when the counter is exhausted
+            self.session.packet_id = self.session.packet_id.checked_add(1).ok_or_else(|| anyhow!("[udp] packet id exhausted; session={}", self.session))?;
             self.codec.encode((content, addr, self.session.clone()), dst)
         }
     }
